@@ -303,13 +303,14 @@ class ItemsetOp(Op):
 
 
 def _ext_rows(rng):
-    hdr = ["list_name", "name", "label", *[c for c in ["state", "county", "x y"] if rng.random() < 0.6]]
+    ln = rng.choice(["list_name", "list_name", "list name"])      # both spellings of the list column are accepted; the sheet is written out as it is
+    hdr = [ln, "name", "label", *[c for c in ["state", "county", "x y"] if rng.random() < 0.6]]
     rows = []
     for i in range(rng.randint(1, 6)):
         row = {}
         for h in hdr:
-            if h in ("list_name",) or rng.random() < 0.7:
-                row[h] = "cities" if h == "list_name" else rng.choice(["a", "b,c", 'q"t', "line\nbreak", "é", " lead", "x;y", "'", f"v{i}"])
+            if h == ln or rng.random() < 0.7:
+                row[h] = "cities" if h == ln else rng.choice(["a", "b,c", 'q"t', "line\nbreak", "é", " lead", "x;y", "'", f"v{i}"])
         rows.append(row)
     return hdr, rows
 
